@@ -18,6 +18,8 @@ pub struct RuleSpec {
     pub keyed: bool,
     /// per-value override of q (index = value index)
     pub overrides: Vec<Option<u64>>,
+    /// params_max_capacity: 0 = default, otherwise >= the number of distinct values (the property's "within capacity")
+    pub capacity: usize,
 }
 
 #[derive(Debug, Clone, Serialize)]
@@ -61,7 +63,9 @@ pub fn decode(u: &mut Bytes) -> Case {
         reqs.push((gap, u.choice(nvalues), 1 + u.choice(4) as u32));
     }
     let probe_value = u.choice(nvalues);
-    Case { phase_ms, rule: RuleSpec { q, burst, d_sec, keyed, overrides }, nvalues, reqs, probe_value }
+    // from the tail (layout above unchanged): a capacity that the distinct values just fit into
+    let capacity = [0usize, nvalues, nvalues + 1, 4, 0][u.tail_choice(5)];
+    Case { phase_ms, rule: RuleSpec { q, burst, d_sec, keyed, overrides, capacity }, nvalues, reqs, probe_value }
 }
 
 fn to_rule(res: &str, r: &RuleSpec, with_overrides: bool, threshold: u64) -> hotspot::Rule {
@@ -81,6 +85,7 @@ fn to_rule(res: &str, r: &RuleSpec, with_overrides: bool, threshold: u64) -> hot
         param_key: if r.keyed { "k".into() } else { String::new() },
         threshold,
         burst_count: r.burst,
+        params_max_capacity: r.capacity,
         duration_in_sec: r.d_sec,
         specific_items: items,
         ..Default::default()
@@ -138,7 +143,7 @@ impl Property for C06 {
     }
     fn assumptions(&self) -> Vec<String> {
         vec![
-            "virtual clock hook; default capacity (>= 4000 values) so distinct values stay within capacity".into(),
+            "virtual clock hook; params_max_capacity is the default or a value the 1-4 distinct values just fit into (number of values, +1, 4), so the distinct values always stay within capacity and no bucket may be evicted".into(),
             "an admission the reference bucket would not grant is flagged only if it breaks the bound (i)".into(),
         ]
     }
